@@ -40,7 +40,7 @@ const (
 	sPolicies = "policies"
 )
 
-const headerReload = "From Coq Require Import String.\nFrom Verif Require Import C14.Model C14.Reload.\nOpen Scope string_scope."
+const headerReload = "From Coq Require Import String.\nFrom Verif Require Import C14.Model C14.Reload C14.ReloadReq.\nOpen Scope string_scope."
 
 const header = "From Coq Require Import String.\nFrom Verif Require Import C14.Model.\nOpen Scope string_scope."
 
@@ -276,7 +276,13 @@ func main() {
 	o.DeclareSuite(sExpr, header, "case_expr", "run_expr")
 	o.DeclareSuite(sFlows, header, "case_flows", "run_flows")
 	o.DeclareSuite(sPolicies, header, "case_policies", "run_policies")
-	o.DeclareSuite(sReload, headerReload, "case_reload", "run_reload")
+	reloadFn := "run_reload2"
+	if os.Getenv("VERIF_C14_SAMENESS") == "expr+requirements" {
+		// development aid: compare with the model of "registrations compared by
+		// expression AND requirements" (seeded change C14-9) instead of the code's
+		reloadFn = "(run_reload2_with SameExprReq)"
+	}
+	o.DeclareSuite(sReload, headerReload, "case_reload2", reloadFn)
 	theO = o
 	o.Rule("URL patterns: every ASCII punctuation character inside a path segment / alone as a segment / inside a host label, " +
 		"a list of special segments ({id}, {user.id}, {}, {a}{b}, {id}x, unbalanced braces, regex operators, ':::') in path and host " +
@@ -289,6 +295,8 @@ func main() {
 		"all its subjects; non-trivial = some probe selects a filter / some subject is matched. " +
 		"Suite reload: a case = one configuration history (flows mode: initializeStreams; policies mode: UpdatePoliciesData delayed / " +
 		"immediate) of 4-10 steps over configurations related as same / overlapping / disjoint / superset / subset / other methods / " +
+		"same filters with other REQUIREMENTS of their processors (body of the message: DataSanitation; request capture: " +
+		"Retry; dropped / added / exchanged; alone or together with a filter leaving and one arriving; policies: plugins exchanged) / " +
 		"diagnosis-free / all plugins disabled / catch-all filter or global plugin on and off / refused load / empty, with mock-clock " +
 		"advances at staleVersionTTL-1ns, TTL, TTL+1ns and beyond, reloads in quick succession (A,B,A inside one TTL) and a random walk; " +
 		"non-trivial = at least two loads succeeded and some delayed un-management removed an expression from the proxy's map")
